@@ -61,7 +61,7 @@ if km.exists():
 out.append("### D.4 Independently seeded changes (from `seeded/seed-*/meta.json`)\n")
 out.append("| id | property | confirmed (demo fails with / passes without, suite passes) | result of the checks at intake | what it needs to manifest |")
 out.append("|---|---|---|---|---|")
-for d in sorted(list((V / "seeded").glob("seed-*")) + list((V / "seeded").glob("seed2-*")) + list((V / "seeded").glob("seed3-*"))):
+for d in sorted(list((V / "seeded").glob("seed*-C*"))):
     m = json.loads((d / "meta.json").read_text())
     res = "; ".join("%s: %s" % (p, re.search(r"(KILLED|SURVIVED|MACHINERY)", v).group(1) if re.search(r"(KILLED|SURVIVED|MACHINERY)", v) else "?") for p, v in m.get("check_results", {}).items())
     needs = (d / "README.md").read_text().strip().splitlines()
